@@ -8,6 +8,7 @@ import Micm.Model.Dense
 import Micm.Model.RateConst
 import Micm.Model.FlatKernels
 import Micm.Model.History
+import Micm.Model.FlatKernels2
 namespace Micm.Driver
 open Micm
 
@@ -513,6 +514,49 @@ def forcingFlatCase : P String := do
     let out := t.addForcingFlat L ncell nrx ns (toFlat nrx k) (toFlat ns y) (toFlat ns f0)
     pure s!"forcingflat f={showFs out.toList}"
 
+def toFlatDense (L ncell cols : Nat) (vals : List Float) : Array Float :=
+  let s : DenseShape := ⟨ncell, cols, L⟩
+  ((List.range ncell).flatMap fun c => (List.range cols).map fun j => (s.addr c j, vals.getD (c * cols + j) 0.0)).foldl
+    (fun a p => wr a p.1 p.2) (Array.replicate s.size 0.0)
+
+/-- flat-storage Jacobian (whole `AsVector()`) -/
+def jacobianFlatCase : P String := do
+  let ncell ← nat; let ns ← nat; let csc ← boolT; let L ← nat
+  let perm ← nats ns
+  let mech ← mechP
+  let nrx := mech.length
+  let k ← flts (ncell * nrx); let y ← flts (ncell * ns)
+  match ProcessSet.build mech (nameMapOf perm) with
+  | .error e => pure (errStr e.toErr)
+  | .ok t =>
+    let set := buildJacobianSet ns t.nonZeroJacobianElements
+    let p := Pattern.mk' ns csc L set
+    match t.jacobianFlatIds p with
+    | .error e => pure (errStr e.toErr)
+    | .ok flat =>
+      let J0 : Array Float := Array.replicate (p.vectorSize ncell) 0.0
+      let J := t.subtractJacobianFlat flat L ncell nrx ns p.nnz (toFlatDense L ncell nrx k) (toFlatDense L ncell ns y) J0
+      pure s!"jacobianflat J={showFs J.toList}"
+
+/-- flat-storage Doolittle factorisation and solve (whole `AsVector()` of L, U and x) -/
+def luFlatCase : P String := do
+  let n ← nat; let csc ← boolT; let L ← nat; let blocks ← nat; let ne ← nat
+  let es ← pairsP ne
+  let set := setOfList es
+  let jac := Pattern.mk' n csc L set
+  let la := LinAlg.build .doolittle jac
+  let avals ← flts (blocks * set.length)
+  let garbage ← flt
+  let b ← flts (blocks * n)
+  let A : Array Float := ((List.range blocks).flatMap fun bl => (set.zipIdx).map fun ei =>
+      (jac.slot bl (jac.rk ei.1.1 ei.1.2), avals.getD (bl * set.length + ei.2) 0.0)).foldl
+    (fun a p => wr a p.1 p.2) (Array.replicate (jac.vectorSize blocks) 0.0)
+  let L0 : Array Float := Array.replicate (la.Lp.vectorSize blocks) garbage
+  let U0 : Array Float := Array.replicate (la.Up.vectorSize blocks) garbage
+  let (Lo, Up) := doolittleFlat L blocks la.dRows jac.nnz la.Lp.nnz la.Up.nnz A (L0, U0)
+  let x := solveFlat L blocks n la.fw la.bw la.Lp.nnz la.Up.nnz Lo Up (toFlatDense L blocks n b)
+  pure s!"luflat L={showFs Lo.toList} U={showFs Up.toList} x={showFs x.toList}"
+
 /-- `NormalizedError` and `IsConverged` on given matrices -/
 def normCase : P String := do
   let L ← nat; let ncell ← nat; let ns ← nat
@@ -536,6 +580,8 @@ def runLine2 (line : String) : String :=
     | "hist" => (histCase.run rest).1
     | "forcingflat" => (forcingFlatCase.run rest).1
     | "norm" => (normCase.run rest).1
+    | "jacobianflat" => (jacobianFlatCase.run rest).1
+    | "luflat" => (luFlatCase.run rest).1
     | _ => runLine line
 
 end Micm.Driver
